@@ -12,7 +12,8 @@ use profirust::dp::{ChannelDataType, ChannelError, ExtDiagBlock};
 pub enum RBlock {
     Device(Vec<u8>),
     Identifier(Vec<bool>),
-    Channel { module: u8, channel: u8, input: bool, output: bool, dtype: u8, error: u8 },
+    /// `error_class`: 0 = one of the nine defined errors, 1 = manufacturer specific (16..=31), 2 = reserved
+    Channel { module: u8, channel: u8, input: bool, output: bool, dtype: u8, error: u8, error_class: u8 },
 }
 
 pub fn ref_blocks(buf: &[u8]) -> Vec<RBlock> {
@@ -53,6 +54,11 @@ pub fn ref_blocks(buf: &[u8]) -> Vec<RBlock> {
                     // 0 is not a defined data type: reported like 7 (invalid)
                     dtype: if rem[2] >> 5 == 0 { 7 } else { rem[2] >> 5 },
                     error: rem[2] & 0x1f,
+                    error_class: match rem[2] & 0x1f {
+                        1..=9 => 0,
+                        16..=31 => 1,
+                        _ => 2,
+                    },
                 });
                 i += 3;
             }
@@ -111,6 +117,11 @@ pub fn from_lib_block(b: &ExtDiagBlock, base: usize) -> (RBlock, Option<usize>, 
                 // 0 maps to Invalid in the library (only 1..=6 are defined data types)
                 dtype: dtype_code(c.dtype),
                 error: error_code(c.error),
+                error_class: match c.error {
+                    ChannelError::Vendor(_) => 1,
+                    ChannelError::Reserved(_) => 2,
+                    _ => 0,
+                },
             },
             None,
             0,
